@@ -281,6 +281,77 @@ def setHashes {H : Type} [DecidableEq H] (ops : HashOps H) (cfg : Cfg) (pick : L
       if o = .badHash ∨ o = .notEnough ∨ (o = .indexError ∧ cfg.catchIndex) then (o, rollback st.rm st.t)
       else (o, st.t)
 
+/-! ## batches as a caller can really pass them: `int` keys (stray, negative, too large)
+
+`hashes` / `leaves` are dicts keyed by Python ints.  `self[i]` with `-len ≤ i < 0` aliases slot `len + i`;
+`depth_of(i)` is `-1` for a negative `i`, so a negative key written into an empty slot is red-dotted in
+`hashes_to_check[-1]`, the deepest level, under its negative number.  Such an entry can never be validated:
+when it is popped `sibling(i)` → `parent(i)` raises IndexError (`i < 1`), and the deepest level cannot be left
+without popping it.  So the batch is rejected — with IndexError, or with the BadHashError /
+NotEnoughHashesError of another entry of that level if the pop order meets that one first — and everything
+is rolled back.  The model records this as `BatchOutcome.unvalidatable` without replaying the level loop. -/
+
+inductive BatchOutcome
+  | ok
+  | err (o : Outcome)   -- the named exception
+  | unvalidatable       -- a red-dotted negative key: IndexError / BadHashError / NotEnoughHashesError (order-dependent)
+  deriving DecidableEq, Repr
+
+/-- Python list index resolution: `none` = IndexError; negative indices alias `len + i` -/
+def resolveIdx (len : Nat) (i : Int) : Option Nat :=
+  if 0 ≤ i then (if i.toNat < len then some i.toNat else none)
+  else if (-i).toNat ≤ len then some (len - (-i).toNat) else none
+
+/-- `new_hashes` over int keys (`hashnum = self.first_leaf_num + leafnum`), see `mergeLeaves` -/
+def mergeLeavesZ {H : Type} [DecidableEq H] (first : Nat) (new : List (Int × H)) :
+    List (Int × H) → Option (List (Int × H))
+  | [] => some new
+  | (ln, lh) :: rest =>
+    match new.lookup ((first : Int) + ln) with
+    | some v => if v ≠ lh then none else mergeLeavesZ first new rest
+    | none => mergeLeavesZ first (new ++ [((first : Int) + ln, lh)]) rest
+
+/-- the provisional loop over int keys; the Bool records that a negative key was written (and red-dotted).
+    (For such a key the red dot and the rollback entry are kept under the aliased slot number; the red set is
+    not used afterwards.) -/
+def provisionalZ {H : Type} [DecidableEq H] (ops : HashOps H) :
+    List (Int × H) → St H → Bool → Except (Outcome × St H) (St H × Bool)
+  | [], st, poison => .ok (st, poison)
+  | (i, h) :: rest, st, poison =>
+    match resolveIdx st.t.length i with
+    | none => .error (.indexError, st)
+    | some j =>
+      if truthyOpt ops (get st.t j) then
+        if get st.t j ≠ some h then .error (.badHash, st) else provisionalZ ops rest st poison
+      else
+        provisionalZ ops rest { t := st.t.set j (some h), red := addSet st.red j, rm := addSet st.rm j }
+          (poison || decide (i < 0))
+
+/-- the `try:` body over int keys -/
+def tryBodyZ {H : Type} [DecidableEq H] (ops : HashOps H) (pick : List Nat → Nat) (t : Tree H)
+    (new : List (Int × H)) : Except (Outcome × St H) (St H × Bool) :=
+  match provisionalZ ops new { t := t, red := [], rm := [] } false with
+  | .error e => .error e
+  | .ok (st, true) => .ok (st, true)
+  | .ok (st, false) =>
+    match levelsLoop ops pick (depthOf (t.length - 1) + 1) st with
+    | .error e => .error e
+    | .ok st' => .ok (st', false)
+
+/-- `set_hashes(hashes, leaves)` for arbitrary int keys.  With `cfg.catchIndex = false` (the code before the
+    repair) the result for an `unvalidatable` batch is only one of the order-dependent possibilities. -/
+def setHashesZ {H : Type} [DecidableEq H] (ops : HashOps H) (cfg : Cfg) (pick : List Nat → Nat)
+    (first : Nat) (t : Tree H) (hashes leaves : List (Int × H)) : BatchOutcome × Tree H :=
+  match mergeLeavesZ first hashes leaves with
+  | none => (.err .badHash, t)
+  | some new =>
+    match tryBodyZ (ops.withCfg cfg) pick t new with
+    | .ok (st, false) => (.ok, st.t)
+    | .ok (st, true) => (.unvalidatable, if cfg.catchIndex then rollback st.rm st.t else st.t)
+    | .error (o, st) =>
+      if o = .badHash ∨ o = .notEnough ∨ (o = .indexError ∧ cfg.catchIndex) then (.err o, rollback st.rm st.t)
+      else (.err o, st.t)
+
 /-! ## specification vocabulary (used by the property theorems of C35 and the integrity chains) -/
 
 /-- `T` is a fully populated Merkle tree: odd length, every node present, every internal node the pair hash
